@@ -73,6 +73,14 @@ def param_grid(full):
 
 def check(seq, di, cutoff, metaprefix, ei, ctx=None, want=None):
     fails = []
+    if not isinstance(di, int):      # an explicit delimiter list (sweep cases)
+        DELIMS_ = {0: list(di)}
+        return _check(seq, 0, cutoff, metaprefix, ei, ctx, want, DELIMS_)
+    return _check(seq, di, cutoff, metaprefix, ei, ctx, want, DELIMS)
+
+
+def _check(seq, di, cutoff, metaprefix, ei, ctx, want, DELIMS):
+    fails = []
     existing = EXISTING[ei]
     conv_in = Converter([to_record(r) for r in existing]) if existing else None
     where = f"discover({list(seq)}, delimiters={DELIMS[di]}, cutoff={cutoff}, metaprefix={metaprefix!r}, converter={'given' if existing else None})"
@@ -121,6 +129,28 @@ def check(seq, di, cutoff, metaprefix, ei, ctx=None, want=None):
                     fails.append(("learned-uri-does-not-round-trip", f"{where}: compress({u!r}) = {c!r}, expand back = {None if c is None else res.expand(c)!r}"))
                 elif ctx is not None:
                     ctx.count("learned_uris_round_tripped")
+    if not fails and res.records and (cutoff is None or ei):
+        # a result belongs to its caller: after it was curated (a synonym merged in, a record added), the same call gives the same answer
+        try:
+            first = res.records[0]
+            res.add_prefix("curated", first.uri_prefix, merge=True)
+            res.add_prefix("zq", "zq:/")
+            again = discover(list(seq), delimiters=DELIMS[di], cutoff=cutoff, metaprefix=metaprefix, converter=conv_in)
+            if record_set(again) != exp_model.record_set():
+                fails.append(("result-depends-on-what-was-done-to-an-earlier-result", f"{where}: after the first result was curated, the same call returns {sorted(map(repr, record_set(again)))}"))
+        except Exception as e:  # noqa
+            fails.append((f"raises/{type(e).__name__}", f"{where} (second call after the first result was curated): {type(e).__name__}: {str(e)[:100]}"))
+        if conv_in is not None and not fails:
+            # the supplied converter is read at call time: once it has learnt the first discovered URI prefix, that prefix contributes nothing
+            learnt = exp[0].uri_prefix
+            try:
+                conv_in.add_prefix("learnt", learnt)
+                want2, _ = reference(seq, DELIMS[di], cutoff, metaprefix, list(existing) + [mrec("learnt", learnt)])
+                again = discover(list(seq), delimiters=DELIMS[di], cutoff=cutoff, metaprefix=metaprefix, converter=conv_in)
+                if record_set(again) != Model(want2, ":").record_set():
+                    fails.append(("supplied-converter-not-read-at-call-time", f"{where}; then the supplied converter learnt {learnt!r}: the same call returns {sorted((r.prefix, r.uri_prefix) for r in again.records)}, reference {[(r.prefix, r.uri_prefix) for r in want2]}"))
+            except ValueError:
+                pass   # the discovered prefix cannot be added to the supplied converter (it clashes): nothing to check
     if ctx is not None:
         ctx.digest((seq, di, cutoff, metaprefix, ei, sorted((r.prefix, r.uri_prefix) for r in res.records)))
         ctx.state(hash(canon(res)))
@@ -152,6 +182,13 @@ def sweep_cases():
         for seq in ([f"h:/{t}/1", f"h:/{t}/2", f"h:/a/{t}"], [f"h:/a{t}b_1", f"h:/a{t}b_2", "h:/c/1"], [f"{t}h:/a/1", f"h:/a/1{t}", f"h:/a/{t}1"], [f"h:/a/{t}", f"h:/a#{t}", f"h:/a_{t}"]):
             add(seq)
             add(seq, cutoff=2, existing=1)
+    for t in sweeps.TOKENS:
+        if t:
+            # the token as (only) delimiter; identifiers made of alphanumerics, also of the token's own last character
+            last = t[-1] if t[-1].isalnum() else "k"
+            seq = [f"h:/a{t}1", f"h:/a{t}2", f"h:/b{t}00{last}1", f"h:/b{t}{last}{last}", f"h:/c{t}x{t}y", "h:/nothing"]
+            add(seq, delims=[t])
+            add(seq, delims=[t, "/"], cutoff=2)
     for x, y in list(sweeps.TWINS) + list(sweeps.URL_TWINS):
         add([f"h:/{x}/1", f"h:/{y}/1"])
         add([f"{x}1", f"{y}1", f"{x}2"]) if x.startswith(("http", "urn")) else add([f"h:/a/{x}", f"h:/a/{y}"], cutoff=2)
